@@ -38,6 +38,8 @@ def cfg_fn(rng):
 
 
 class FeatOpGen(OpGen):
+    scenarios = ("stale",)
+
     """Adds enable/disable of iou at random points of the history."""
 
     def gen_features(self, tracks):
